@@ -163,6 +163,11 @@ func (g *bGen) genCase(version uint32, idx int) *bCase {
 				NodeKey:     bKeyHex(bKeyTheirNode + rng.Intn(16)),
 				MultiSigKey: bKeyHex(bKeyTheirMS + rng.Intn(16)),
 				UnitsFilled: uint32(1 + rng.Intn(20)),
+				Version:     6,
+			}
+			// half of the counterparty orders were created by older software
+			if rng.Intn(2) == 0 {
+				t.Version = uint32(rng.Intn(7))
 			}
 			if o.AuctionType == 1 {
 				t.UnitsFilled = 1
@@ -245,7 +250,10 @@ func (g *bGen) genCase(version uint32, idx int) *bCase {
 	// as found and the repaired code, and C01/C03 do not depend on that repair)
 	if g.prop == "C02" && rng.Intn(pHost) == 0 {
 		ai := rng.Intn(nAcct)
-		switch rng.Intn(3) {
+		switch rng.Intn(4) {
+		case 3:
+			c.PremiumAlt = 1 + rng.Intn(4)
+			c.Devs = append(c.Devs, fmt.Sprintf("hostile-premium-formula-%d", c.PremiumAlt))
 		case 0:
 			max := uint64(best) + uint64(bMaxAccountExpiry)
 			vals := []uint64{max + 1, max + 2, max + 1000, 0xffffffff, max, max - 1, uint64(best), 1}
@@ -323,7 +331,26 @@ func (g *bGen) reproposal(prev *bCase) *bCase {
 		return c
 	}
 	h := &bHostile{expiry: map[int]uint32{}, version: map[int]uint32{}, dup: -1, keepValues: true}
-	switch rng.Intn(6) {
+	switch rng.Intn(7) {
+	case 6:
+		// same batch key, another new expiry in the diff, but the account output still
+		// pays to the script of the previously proposed expiry
+		c.Devs = []string{"reproposal-stale-expiry-script"}
+		changed := false
+		for i := range c.Msg.Diffs {
+			d := &c.Msg.Diffs[i]
+			if bSupportsExt(c.Msg.Version) && d.OutpointIndex >= 0 {
+				if d.NewExpiry == 0 {
+					d.NewExpiry = c.Best + uint32(144+rng.Intn(int(bMaxAccountExpiry)-144))
+				} else {
+					d.NewExpiry = c.Best + 144 + (d.NewExpiry-c.Best+uint32(1+rng.Intn(1000)))%(bMaxAccountExpiry-144)
+				}
+				changed = true
+			}
+		}
+		if !changed {
+			c.Devs = []string{"reproposal-resend"}
+		}
 	case 0:
 		c.Devs = []string{"reproposal-resend"}
 	case 1:
@@ -426,7 +453,12 @@ func (g *bGen) settle(c *bCase, h *bHostile) {
 		a := &c.Env.Accounts[ai]
 		keep := a.Value
 		a.Value = 0
-		end0, _, involved := c.specEndingBalance(a)
+		prem := bSpecPremium
+		if c.PremiumAlt != 0 {
+			kind := c.PremiumAlt
+			prem = func(amt int64, rate, dur uint32) int64 { return bAltPremium(kind, amt, rate, dur) }
+		}
+		end0, _, involved := c.endingBalanceWith(a, prem)
 		if !involved {
 			a.Value = int64(100_000 + rng.Intn(10_000_000))
 			if h.keepValues {
@@ -456,7 +488,7 @@ func (g *bGen) settle(c *bCase, h *bHostile) {
 		if h.keepValues {
 			a.Value = keep
 		}
-		end, n, _ := c.specEndingBalance(a)
+		end, n, _ := c.endingBalanceWith(a, prem)
 		ending := end.Int64()
 		d := bDiff{AcctKey: a.Key, EndingBalance: uint64(ending), OutpointIndex: -1, NewVersion: uint32(a.Version)}
 		// expiry extension / version upgrade as an honest auctioneer does
@@ -917,6 +949,28 @@ func (g *bGen) deviate(c *bCase) {
 				}
 			default:
 				mo.Asks, mo.Bids = []bTheir{}, []bTheir{}
+			}
+			return true
+		}},
+		{"their-order-version", func() bool {
+			_, t, _ := pickTheir()
+			if t == nil {
+				return false
+			}
+			t.Version = uint32(rng.Intn(8))
+			return true
+		}},
+		{"their-duration-old-version", func() bool {
+			// another lease duration on an order of a version that pre-dates duration buckets
+			_, t, _ := pickTheir()
+			if t == nil {
+				return false
+			}
+			t.Version = uint32(rng.Intn(2))
+			if rng.Intn(4) == 0 {
+				t.Duration = 0
+			} else {
+				t.Duration = otherDuration(t.Duration)
 			}
 			return true
 		}},
@@ -1381,14 +1435,14 @@ func (g *bGen) deviate(c *bCase) {
 		"C01": {"batch-version", "batch-version-flag", "height-hint-edge", "height-wrap", "clearing-price",
 			"market-duration", "move-order-to-other-market", "same-nonce-in-two-markets", "our-rate", "our-duration", "our-auction-type",
 			"our-side", "our-unfulfilled", "our-min-match", "allow-list", "deny-list", "their-side",
-			"their-duration", "their-auction-type", "their-rate", "their-node-key", "their-units", "extra-match",
+			"their-duration", "their-duration-old-version", "their-order-version", "their-auction-type", "their-rate", "their-node-key", "their-units", "extra-match",
 			"drop-match", "unknown-our-nonce"},
 		"C02": {"fee-rate", "exec-base", "exec-rate", "clearing-price", "our-self-balance", "their-self-balance",
 			"their-units", "diff-balance", "diff-balance-and-output", "diff-state", "diff-index", "diff-new-expiry",
 			"diff-new-version", "diff-acct-key", "diff-drop", "diff-duplicate-plain", "diff-uninvolved-account",
 			"acct-value", "acct-version", "acct-expiry", "acct-batch-key", "acct-secret", "acct-auctioneer-key",
 			"out-value", "out-script", "out-wrong-script-kind", "our-acct-key"},
-		"C03": {"out-value-alt-balance", "out-script-related-keys", "our-chan-type", "their-chan-type", "our-key-index", "our-sidecar", "their-multisig-key",
+		"C03": {"their-order-version", "out-value-alt-balance", "out-script-related-keys", "our-chan-type", "their-chan-type", "our-key-index", "our-sidecar", "their-multisig-key",
 			"our-self-balance", "their-self-balance", "their-units", "out-value", "out-script", "out-swap-scripts",
 			"out-drop", "out-wrong-script-kind", "extra-match"},
 	}
